@@ -35,6 +35,18 @@ class _Return(Exception):
         self.value = value
 
 
+class _Defect(Exception):
+    """a scenario run over the analysed code has located a construct that is wrong (the text says what)"""
+
+
+class _Break(Exception):
+    pass
+
+
+class _Continue(Exception):
+    pass
+
+
 class _OtherClock:
     """a reading of a clock other than the monotonic perf_counter: never equal to a perf_counter reading"""
 
@@ -76,7 +88,18 @@ def _cv_calls(f, cv, attr) -> list:
 
 
 _BUILTIN_FUNCS = {"min": min, "max": max}
-_DICT_MUTATORS = ("setdefault", "update", "pop")
+_DICT_MUTATORS = ("setdefault", "update", "pop", "clear")
+
+
+class _Obj(Record):
+    """a mutable object of a class of the analysed module (the request context manager, the holder, a reset token): .fields are its instance attributes, .cls its class"""
+
+    def __init__(self, cls, **fields):
+        super().__init__(**fields)
+        self.cls = cls
+
+    def __repr__(self):
+        return f"<{getattr(self.cls, 'name', 'token')} object>"
 
 
 class _Interp:
@@ -94,6 +117,7 @@ class _Interp:
         self.modfuncs = {n.name: n for n in (self.mod.tree.body if self.mod is not None else []) if isinstance(n, ast.FunctionDef)}
         self.ctxd = dict(state)
         self.clock = clock
+        self.globals: dict = {}  # module-level names every interpreted function sees (bound by a subclass)
         self.stores: list = []  # (assignment node, key) of every executed store into the context dict
         self.depth = 0
         self.k = 0
@@ -184,9 +208,13 @@ class _Interp:
         except (TypeError, ValueError, AttributeError) as x:  # a value minieval does not expect (a function value, a foreign clock reading) in an operator position
             raise _Stuck(f"{short(n, 50)}: {type(x).__name__}")
 
+    def current(self):
+        """the dict `<cv>.get()` yields"""
+        return self.ctxd
+
     def _call(self, n, env):
         if _is_ctx_get(n, self.cv):
-            return self.ctxd
+            return self.current()
         ck = self._clock_name(n)
         if ck is not None:
             if n.args or n.keywords:
@@ -229,15 +257,23 @@ class _Interp:
             raise _Raises(f"{short(n, 50)}: {type(x).__name__}")
 
     # -- statements -----------------------------------------------------------------------------------------------------------------
-    def invoke(self, f, argvals, kwvals=None):
+    def invoke(self, f, argvals, kwvals=None, this=_ABSENT):
+        """run f on argument values; `this`: the object an instance method is invoked on (its first parameter is bound to it; without it - and for a classmethod - the first
+        parameter stays unbound: calls through it are recognised as calls of methods of the class)"""
         names = params_of(f)
         deco = {last_attr(d.func if isinstance(d, ast.Call) else d) for d in f.decorator_list}
+        receiver = None
         if "staticmethod" not in deco and names and isinstance(source.parent(f), ast.ClassDef):
-            names = names[1:]
+            receiver, names = (names[0] if this is not _ABSENT and "classmethod" not in deco else None), names[1:]
         kwonly = [a.arg for a in f.args.kwonlyargs]
         if len(argvals) > len(names) or f.args.vararg is not None or f.args.kwarg is not None:
             raise _Stuck(f"arguments of {f.name} cannot be bound")
-        env = dict(zip(names, argvals))
+        env = dict(self.globals)
+        for nm in params_of(f) + kwonly:
+            env.pop(nm, None)
+        env.update(zip(names, argvals))
+        if receiver is not None:
+            env[receiver] = this
         for k, v in (kwvals or {}).items():
             if k in env or k not in names + kwonly:
                 raise _Stuck(f"argument {k} of {f.name} cannot be bound")
@@ -279,26 +315,72 @@ class _Interp:
                     raise _Raises(short(s, 60))
             elif isinstance(s, ast.Expr) and isinstance(s.value, ast.Call) and self._special(s.value, env):
                 self.val(s.value, env)
-            elif isinstance(s, ast.Assign) and len(s.targets) == 1 and isinstance(s.targets[0], ast.Name):
-                env[s.targets[0].id] = self.val(s.value, env)
-            elif isinstance(s, ast.Assign) and len(s.targets) == 1 and isinstance(s.targets[0], ast.Tuple) and all(isinstance(t, ast.Name) for t in s.targets[0].elts):
+            elif isinstance(s, ast.Assign) or (isinstance(s, ast.AnnAssign) and s.value is not None):
                 v = self.val(s.value, env)
-                if not isinstance(v, (tuple, list)) or len(v) != len(s.targets[0].elts):
-                    raise _Stuck(f"unpacking {short(s, 60)}")
-                for t, x in zip(s.targets[0].elts, v):
-                    env[t.id] = x
-            elif isinstance(s, ast.Assign) and len(s.targets) == 1 and isinstance(s.targets[0], ast.Subscript):
-                d, k, v = self.val(s.targets[0].value, env), self.val(s.targets[0].slice, env), self.val(s.value, env)
-                if not isinstance(d, dict):
-                    raise _Stuck(f"store into {u(s.targets[0].value)}")
+                for t in (s.targets if isinstance(s, ast.Assign) else [s.target]):
+                    self.assign(t, v, env, s)
+            elif isinstance(s, ast.AnnAssign):
+                continue  # a bare declaration
+            elif isinstance(s, ast.Try):
                 try:
-                    d[k] = v
-                except TypeError:
-                    raise _Stuck(f"store under an unhashable key in {short(s, 60)}")
-                if d is self.ctxd:
-                    self.stores.append((s, k))
+                    try:
+                        self.block(s.body, env)
+                    except _Raises as x:
+                        if s.handlers:  # (the class of the exception is not modelled: which handler would take it cannot be told)
+                            raise _Stuck(f"an exception inside a try statement with handlers ({x})")
+                        raise
+                    self.block(s.orelse, env)
+                finally:
+                    self.block(s.finalbody, env)
+            elif isinstance(s, ast.For):
+                it = self.val(s.iter, env)
+                if not isinstance(it, (list, tuple, dict, set, frozenset)):
+                    raise _Stuck(f"loop over {short(s.iter, 40)}")
+                done = True
+                for x in list(it):
+                    self.assign(s.target, x, env, s)
+                    try:
+                        self.block(s.body, env)
+                    except _Continue:
+                        continue
+                    except _Break:
+                        done = False
+                        break
+                if done:
+                    self.block(s.orelse, env)
+            elif isinstance(s, ast.Break):
+                raise _Break()
+            elif isinstance(s, ast.Continue):
+                raise _Continue()
             else:
                 raise _Stuck(f"statement {short(s, 60)}")
+
+    def assign(self, t, v, env, s):
+        """bind the value v to the target t of statement s: a local, a key of a dict, an attribute of an object of the analysed module, a tuple of such"""
+        if isinstance(t, ast.Name):
+            env[t.id] = v
+        elif isinstance(t, (ast.Tuple, ast.List)):
+            if any(isinstance(x, ast.Starred) for x in t.elts) or not isinstance(v, (tuple, list)) or len(v) != len(t.elts):
+                raise _Stuck(f"unpacking {short(s, 60)}")
+            for x, y in zip(t.elts, v):
+                self.assign(x, y, env, s)
+        elif isinstance(t, ast.Subscript):
+            d, k = self.val(t.value, env), self.val(t.slice, env)
+            if not isinstance(d, dict):
+                raise _Stuck(f"store into {u(t.value)}")
+            try:
+                d[k] = v
+            except TypeError:
+                raise _Stuck(f"store under an unhashable key in {short(s, 60)}")
+            if d is self.ctxd:
+                self.stores.append((s, k))
+        elif isinstance(t, ast.Attribute):
+            o = self.val(t.value, env)
+            if not isinstance(o, _Obj):
+                raise _Stuck(f"store into an attribute of {u(t.value)}")
+            o.fields[t.attr] = v
+        else:
+            raise _Stuck(f"statement {short(s, 60)}")
 
 
 def run_holder(func, args, state: dict, clock=None) -> _Interp:
@@ -478,6 +560,284 @@ def _need(R, *names):
         if getattr(R, nm, None) in (None, [], set()):
             raise AnchorMissing(f"{_C}: role '{nm}' of the request context classes could not be derived (init method that sets the ContextVar / __enter__ unpacking its result / "
                                 "holder calls of the manager)")
+
+
+# ---- the life cycle of request contexts, run abstractly: factory -> __init__ -> __enter__ -> (wire requests) -> __exit__, on OBJECTS (identity matters) --------------------------
+
+class _Life(_Interp):
+    """_Interp over the two classes of the context module TOGETHER: manager and holder objects are _Obj values (instance attributes are stored and read, methods of either class
+    are invoked on them with `self` bound, properties are evaluated, `Manager(...)` runs __init__), and the ContextVar is modelled for ONE asyncio task at a time:
+    .cur is its value in the task that is running (_MISSING: never set), `<cv>.set(v)` installs v and yields a token remembering the previous value, `<cv>.reset(token)` restores
+    it, `<cv>.get()` raises (LookupError) when nothing is installed. A scenario switches tasks by swapping .cur (a new task starts with a COPY of its creator's context: the
+    same dict object). .installed lists every object handed to set(), in order. Nothing of the repository is executed."""
+
+    def __init__(self, R):
+        super().__init__(R.RCH, {})
+        self.R = R
+        self.cur = _MISSING
+        self.installed: list = []
+        self.by_class = {R.RCM.name: R.RCM, R.RCH.name: R.RCH}
+        self._meths = {R.RCM.name: R.mm, R.RCH.name: R.hm}
+        self.holder = _Obj(R.RCH)
+        for name, target in R.mod.imports.items():
+            if target == "contextvars":
+                self.globals[name] = Record(Token=Record(MISSING=_MISSING))
+            elif target == "contextvars.Token":
+                self.globals[name] = Record(MISSING=_MISSING)
+            elif target == "contextvars.Token.MISSING":
+                self.globals[name] = _MISSING
+
+    # the one-dict interface of _Interp: "the context dict" is whatever is installed in the running task
+    @property
+    def ctxd(self):
+        return self.cur if isinstance(self.cur, dict) else None
+
+    @ctxd.setter
+    def ctxd(self, v):
+        pass
+
+    def current(self):
+        if self.cur is _MISSING:
+            raise _Raises("LookupError: no request context is installed in this task")
+        return self.cur
+
+    # -- roles of sub-expressions ------------------------------------------------------------------------------------------------------------
+    def _cv_op(self, n):
+        f = n.func if isinstance(n, ast.Call) else None
+        return f.attr if isinstance(f, ast.Attribute) and f.attr in ("set", "reset", "get") and isinstance(f.value, ast.Attribute) and f.value.attr == self.cv else None
+
+    @staticmethod
+    def _rooted_in_object(e, env) -> bool:
+        while isinstance(e, ast.Attribute):
+            e = e.value
+        return isinstance(e, ast.Name) and isinstance(env.get(e.id), _Obj)
+
+    def _method(self, obj, name):
+        return self._meths.get(getattr(obj.cls, "name", None), {}).get(name) if isinstance(obj, _Obj) else None
+
+    def _property(self, n, env):
+        """(object, property function) if the attribute load n reads a property of an object bound in env"""
+        if isinstance(n, ast.Attribute) and isinstance(n.ctx, ast.Load) and isinstance(n.value, ast.Name) and isinstance(env.get(n.value.id), _Obj):
+            o = env[n.value.id]
+            f = self._method(o, n.attr)
+            if f is not None and n.attr not in o.fields and "property" in {last_attr(d) for d in f.decorator_list}:
+                return o, f
+        return None
+
+    def _special(self, n, env) -> bool:
+        if isinstance(n, ast.Attribute):
+            return self._property(n, env) is not None
+        if isinstance(n, ast.Call):
+            if self._cv_op(n) is not None:
+                return True
+            if isinstance(n.func, ast.Name) and n.func.id not in env and (n.func.id in self.by_class or n.func.id == "dict"):
+                return True
+            if isinstance(n.func, ast.Attribute) and self._rooted_in_object(n.func.value, env):
+                return True
+        return super()._special(n, env)
+
+    def _val(self, n, env):
+        p = self._property(n, env)
+        if p is not None:
+            return self.invoke(p[1], [], this=p[0])
+        return super()._val(n, env)
+
+    def _call(self, n, env):
+        op = self._cv_op(n)
+        if op == "get" and not n.args and not n.keywords:
+            return self.current()
+        if op is not None:
+            a, kw = self._args(n, env)
+            if kw or len(a) != 1:
+                raise _Stuck(f"arguments of {short(n, 50)}")
+            if op == "get":
+                return a[0] if self.cur is _MISSING else self.cur
+            if op == "set":
+                tok = _Obj(None, old_value=self.cur)
+                self.cur = a[0]
+                self.installed.append(a[0])
+                return tok
+            if not isinstance(a[0], _Obj) or a[0].cls is not None or "old_value" not in a[0].fields:
+                raise _Raises(f"{short(n, 50)}: reset with something that is not a token")
+            if a[0].fields.get("used"):
+                raise _Raises(f"{short(n, 50)}: RuntimeError, the token has already been used")
+            a[0].fields["used"] = True
+            self.cur = a[0].fields["old_value"]
+            return None
+        f = n.func
+        if isinstance(f, ast.Name) and f.id not in env and f.id in self.by_class:
+            o = _Obj(self.by_class[f.id])
+            a, kw = self._args(n, env)
+            init = self._method(o, "__init__")
+            if init is not None:
+                self.invoke(init, a, kw, this=o)
+            elif a or kw:
+                raise _Stuck(f"{short(n, 50)}: constructor arguments without an __init__")
+            return o
+        if isinstance(f, ast.Name) and f.id not in env and f.id == "dict":
+            a, kw = self._args(n, env)
+            try:
+                return dict(*a, **kw)
+            except (TypeError, ValueError) as x:
+                raise _Raises(f"{short(n, 50)}: {type(x).__name__}")
+        if isinstance(f, ast.Attribute) and self._rooted_in_object(f.value, env):
+            recv = self._val(f.value, env)
+            m = self._method(recv, f.attr)
+            if m is not None:
+                if "property" in {last_attr(d) for d in m.decorator_list}:
+                    raise _Stuck(f"call of the value of a property {short(n, 50)}")
+                a, kw = self._args(n, env)
+                return self.invoke(m, a, kw, this=recv)
+            if isinstance(recv, dict) and f.attr in ("get", "copy"):
+                a, kw = self._args(n, env)
+                try:
+                    return getattr(recv, f.attr)(*a, **kw)
+                except TypeError as x:
+                    raise _Raises(f"{short(n, 50)}: {type(x).__name__}")
+            if isinstance(recv, dict) and f.attr in _DICT_MUTATORS:
+                return super()._call(n, env)
+            if recv is None:
+                raise _Raises(f"{short(n, 50)}: AttributeError on None")
+            raise _Stuck(f"call {short(n, 50)}")
+        return super()._call(n, env)
+
+    # -- what a scenario does ------------------------------------------------------------------------------------------------------------------
+    def send(self, obj, name, *args):
+        f = self._method(obj, name)
+        if f is None:
+            raise _Stuck(f"{obj!r} has no method {name}")
+        return self.invoke(f, list(args), this=obj)
+
+    def read(self, obj, name):
+        """obj.<name>: an instance attribute or a property"""
+        if not isinstance(obj, _Obj):
+            raise _Stuck(f"`.{name}` is read from {obj!r}, which is no object of the context module")
+        if name in obj.fields:
+            return obj.fields[name]
+        f = self._method(obj, name)
+        if f is None or "property" not in {last_attr(d) for d in f.decorator_list}:
+            raise _Stuck(f"{obj!r} has no attribute / property {name}")
+        return self.invoke(f, [], this=obj)
+
+    def open(self, manager=None):
+        """enter a request context in the running task - through `manager` if given, else through a new manager from the holder's factory;
+        returns (manager, what `with ... as` binds, the installed dict, a copy of what it held when it was installed)"""
+        if manager is None:
+            manager = self.send(self.holder, sorted(self.R.factories)[0])
+        if not isinstance(manager, _Obj):
+            raise _Stuck("the context factory does not return a context manager object")
+        n = len(self.installed)
+        bound = self.send(manager, "__enter__")
+        if len(self.installed) == n:
+            raise _Defect("entering the request context (again) installs nothing: the request runs in no context of its own")
+        if not isinstance(self.cur, dict):
+            raise _Stuck("__enter__ has installed something that is no dict")
+        return manager, bound, self.cur, dict(self.cur)
+
+    def close(self, manager, failed=False):
+        return self.send(manager, "__exit__", *(("ExcType", "exc", "tb") if failed else (None, None, None)))
+
+    def timings(self, bound):
+        return self.read(bound, "request_start"), self.read(bound, "request_end")
+
+
+def _wire(R):
+    """(record_start(life, t), record_end(life, t)): what the client's trace hooks do for a wire request in the running task, through the holder's merge methods (located by value)"""
+    ms, me = _merge_by_value(R.hm, "request_start"), _merge_by_value(R.hm, "request_end")
+    if ms is None or me is None:
+        raise AnchorMissing("RequestContextHolder: the one-value methods that record a wire request's start / end were not located")
+    return (lambda life, t: life.invoke(ms, [t])), (lambda life, t: life.invoke(me, [t]))
+
+
+def _no_timings(d: dict) -> bool:
+    return all(d.get(k) is None for k in _KEYS)
+
+
+def consecutive_requests(R, reuse_manager: bool):
+    """Two requests of ONE client, one after the other, as the executor's loop opens them (reuse_manager: the context manager object is created once and entered again for the
+    second request; else a new one per request). Request 1 (wire 1.0 .. 2.0) has spawned a sub-request task - a stream of a composite - that is still in flight when request 1
+    ends (a sibling failed, on-error=continue): that task holds request 1's dict in its copy of the context and records 1.5 .. 5.5 into it while request 2 (wire 5.0 .. 6.0) runs.
+    Returns the first defect as a text, or None: request 2 must run on a dict object of its own, empty of timings when installed, and be recorded with 5.0 .. 6.0.
+    Raises _Stuck / _Raises."""
+    how = "the context manager is created once per client and entered again" if reuse_manager else "a new context manager per request"
+    life = _Life(R)
+    start, end = _wire(R)
+    m, _, d1, _ = life.open()
+    start(life, 1.0)
+    end(life, 2.0)
+    life.close(m)
+    if life.cur is not _MISSING:
+        raise _Stuck("the top-level context is not restored by __exit__ (decided by other obligations)")
+    try:
+        m2, bound, d2, at_entry = life.open(m if reuse_manager else None)
+    except _Defect as x:
+        return f"{how}: {x}"
+    start(life, 5.0)
+    life.cur = d1  # the task left over from request 1 ends its sub-request ...
+    start(life, 1.5)
+    end(life, 5.5)
+    life.cur = d2  # ... and the client's task goes on
+    end(life, 6.0)
+    got = life.timings(bound)
+    life.close(m2)
+    if d2 is d1:
+        return (f"{how}: the second request runs on the SAME dict object as the first - a sub-request task of request 1 that ends late (1.5 .. 5.5) is booked on request 2, "
+                f"recorded with {got[0]} .. {got[1]} instead of 5.0 .. 6.0")
+    if not _no_timings(at_entry):
+        return f"{how}: the dict installed for the second request already holds timings ({at_entry})"
+    if got != (5.0, 6.0):
+        return f"{how}: the second request (wire 5.0 .. 6.0) is recorded with {got[0]} .. {got[1]}"
+    return None
+
+
+def nested_and_concurrent_requests(R):
+    """A top-level request context (wire 2.0 .. 3.0) with a nested sub-request (wire 4.0 .. 7.0), then two sub-requests in tasks of their own (each a copy of the top-level
+    context) of which the one that started later (9.0 .. 10.0) ends before the one that started earlier (8.0 .. 12.0). Every context is opened through a new manager from the
+    factory. Returns the first defect as a text, or None: every entry installs a dict object of its own, empty of timings; each sub-request reads exactly its own span; the
+    top-level context reads the span of everything (2.0 .. 12.0). Raises _Stuck / _Raises."""
+    life = _Life(R)
+    start, end = _wire(R)
+    top, tb, d0, _ = life.open()
+    start(life, 2.0)
+    end(life, 3.0)
+    inner, ib, d1, e1 = life.open()
+    start(life, 4.0)
+    end(life, 7.0)
+    got1 = life.timings(ib)
+    life.close(inner)
+    if life.cur is not d0:
+        raise _Stuck("the enclosing context is not restored by __exit__ (decided by other obligations)")
+    # two streams: tasks A and B start with a copy of the top-level task's context
+    cur_a = cur_b = d0
+    life.cur = cur_a
+    ma, ab, da, ea = life.open()
+    cur_a = life.cur
+    life.cur = cur_b
+    mb, bb, db, eb = life.open()
+    start(life, 8.0)
+    cur_b = life.cur
+    life.cur = cur_a
+    start(life, 9.0)
+    end(life, 10.0)
+    got_a = life.timings(ab)
+    life.close(ma, failed=True)  # (a failed stream still belongs to the logical request)
+    life.cur = cur_b
+    end(life, 12.0)
+    got_b = life.timings(bb)
+    life.close(mb)
+    life.cur = d0
+    got0 = life.timings(tb)
+    life.close(top)
+    dicts = [d0, d1, da, db]
+    if any(x is y for i, x in enumerate(dicts) for y in dicts[:i]):
+        return "two entries into a request context (nested / concurrent, each through a new manager) run on the same dict object"
+    if not all(_no_timings(e) for e in (e1, ea, eb)):
+        return f"a nested context starts with timings of its surroundings ({[e for e in (e1, ea, eb) if not _no_timings(e)][0]})"
+    for name, got, want in (("the nested sub-request", got1, (4.0, 7.0)), ("the stream that started later and ended first", got_a, (9.0, 10.0)),
+                            ("the stream that started earlier and ended last", got_b, (8.0, 12.0)), ("the logical request", got0, (2.0, 12.0))):
+        if got != want:
+            return f"{name} is recorded with {got[0]} .. {got[1]} instead of {want[0]} .. {want[1]}"
+    return None
 
 
 def _reached_calls(fn, R, depth=0) -> list:
@@ -1254,6 +1614,22 @@ class _Step:
         return T().visit(source.clone(e))  # (re-parsed: analysed nodes carry parent links and are never deep-copied)
 
 
+def _manager_per_request(w, item, loop, top, step):
+    """Is the context MANAGER object that the with statement w (item) enters created anew for every request? True: the context expression is itself the call that creates
+    it, or a local bound to that call inside the request loop / inside a helper that the loop runs per request; False: a local bound once, outside the loop, in the function
+    that holds the loop; None: cannot be told."""
+    fw = source.enclosing_func(w)
+    defs = step.defs(fw)[0]
+    e, hops = item.context_expr, 0
+    while isinstance(e, ast.Name) and e.id in defs and hops < 10:
+        e, hops = defs[e.id], hops + 1
+    if not isinstance(e, ast.Call):
+        return None
+    if hops == 0 or fw is not top:
+        return True
+    return loop in list(source.ancestors(e))
+
+
 def _request_loop(drv, step=None):
     """(AsyncExecutor.__call__, its request loop): the loop over the schedule - of the `async for` loops of the method the one that contains the runner invocation, directly or
     inside a helper of the executor that the loop runs inline (the first one if that cannot be told). Same role as rules.C04.request_loop; derived here so that this module
@@ -1295,6 +1671,9 @@ def run(chk):
         "spot), values followed across them: parameters bound to arguments, results to what the helper returns, fields of a record to the constructor's arguments - "
         "each enclose exactly one delegate call in their own context and read start/end from that context; the wrapper computes over start/end only when both are present "
         "(decided on None / 0.0 / ordinary values); a failed wire request's end is recorded by the node-level perform_request handler on every exceptional exit. "
+        "The life cycle of the context OBJECTS (factory, __init__, __enter__, wire requests, __exit__; the ContextVar modelled per asyncio task) is run abstractly for "
+        "consecutive, nested and concurrent requests - the manager obtained the way the executor's loop obtains it - : every entry installs a dict object of its own, so "
+        "that a sub-request task that outlives its request cannot write into the client's next request, and every context reads exactly its own span. "
         "Roles (holder attribute, dict / token attributes, merge methods, context factory, sampler call) are derived from data flow, not from names of locals or attributes."
     )
     chk.not_decided = "asyncio scheduling, aiohttp trace timing (which signals aiohttp emits when), clock behaviour."
@@ -1460,6 +1839,22 @@ def run(chk):
             ok = len(resets) == 1 and targ is not None and u(_chain_arg(rch_, targ)) == f"self.{R.token_attr}" and not any(guards(x) for x in rch_) \
                 and all(_chain_dominated(pch, rch_) for _, pch in props)
             chk.ob("O18.2", "context restored (reset(token)) unconditionally before propagation", ok, rc_, "")
+        # every ENTRY installs a dict object of its own (not only: the set site's argument is spelled like a new dict): the life cycle factory -> __init__ -> __enter__ -> wire
+        # requests -> __exit__ is run abstractly on objects, for consecutive, nested and concurrent contexts, each opened through a new manager from the factory
+        if not R.factories:
+            chk.unknown("O18.2", "RequestContextHolder: no method returns a new RequestContextManager (the context factory): the life cycle of a request context was not evaluated", RCH)
+        else:
+            for name, scenario in (("consecutive", lambda: consecutive_requests(R, reuse_manager=False)), ("nested and concurrent", lambda: nested_and_concurrent_requests(R))):
+                try:
+                    try:
+                        defect = scenario()
+                    except _Defect as x:
+                        defect = str(x)
+                    chk.ob("O18.2", f"{name} request contexts, each entered through a new manager: every entry installs a dict object of its own, empty of timings, and every context "
+                           "reads exactly the span of its own wire requests and of its sub-contexts", defect is None, ent if ent is not None else RCM, defect or "",
+                           key=f"{_C}:RequestContextManager:life-cycle:{name.split()[0]}")
+                except (_Stuck, _Raises) as x:
+                    chk.unknown("O18.2", f"the life cycle of {name} request contexts could not be evaluated ({type(x).__name__[1:].lower()}: {x})", ent if ent is not None else RCM)
         # (the obligation "every normal exit of __exit__ has restored the enclosing context" is stated by propagation_guard_rule below, which C04 shares)
         if len(R.restore) != 1:
             chk.unknown("O18.2", f"{len(R.restore)} holder methods reset the ContextVar", RCH)
@@ -1510,6 +1905,23 @@ def run(chk):
             ok = len(withs) == 1 and withs[0][2] == "call" and source.enclosing(withs[0][3][0], _LOOPS) is L and all(source.enclosing(x, _LOOPS) is None for x in withs[0][3][1:])
             chk.ob("O18.3", "executor: one fresh request context per request (inside the loop)", ok, withs[0][0] if withs else allw[0][0], "" if ok else
                    f"{len(withs)} context(s) entered inside the request loop, {len(allw) - len(withs)} outside" + ("; the context object is kept in instance state" if any(h == "attr" for _, _, h, _ in allw) else ""))
+        if withs and withs[0][2] == "call":
+            # ... and a fresh context means a fresh DICT: whatever still refers to the dict of an earlier request of this client (a sub-request task of a composite that
+            # outlives its request) must not reach the next request. Decided by running the life cycle of two consecutive requests abstractly, with the context manager object
+            # obtained the way the loop obtains it (a new one per request, or one created before the loop and entered again).
+            per = _manager_per_request(withs[0][0], withs[0][1], L, call, step)
+            if per is None:
+                chk.unknown("O18.3", f"executor: where the context manager `{short(withs[0][1].context_expr, 40)}` that the request loop enters is created could not be traced", withs[0][0])
+            else:
+                try:
+                    try:
+                        defect = consecutive_requests(R, reuse_manager=not per)
+                    except _Defect as x:
+                        defect = str(x)
+                    chk.ob("O18.3", "executor: consecutive requests of a client run on distinct, initially empty context dicts (a sub-request task that outlives its request cannot "
+                           "write into the next one)", defect is None, withs[0][0], defect or "", key=f"{_D}:AsyncExecutor.__call__:context-dict-per-request")
+                except (_Stuck, _Raises) as x:
+                    chk.unknown("O18.3", f"executor: the life cycle of two consecutive request contexts could not be evaluated ({type(x).__name__[1:].lower()}: {x})", withs[0][0])
         if withs:
             W, wchain = withs[0][0], withs[0][3]
             FW = source.enclosing_func(W)
@@ -2019,4 +2431,37 @@ VARIANTS += [
      V("", "keep", _C, "        return self.ctx.get(\"request_end\")", "        return self._timing(\"request_end\")"), V("", "keep", _C, "    def __exit__(self, exc_type", _TIMING_HELPER)],
     [V("property helper is asked for the end's key by the start property", "break", _C, "        return self.ctx.get(\"request_start\")", "        return self._timing(\"request_end\")", "O18.1"),
      V("", "break", _C, "        return self.ctx.get(\"request_end\")", "        return self._timing(\"request_end\")"), V("", "break", _C, "    def __exit__(self, exc_type", _TIMING_HELPER)],
+]
+
+# ---- strengthening round 5 (seed C18-m14): a fresh request context per request means a fresh DICT OBJECT per request - decided by running the life cycle of the context
+#      objects abstractly (consecutive_requests / nested_and_concurrent_requests), with the manager obtained the way the executor's loop obtains it ------------------------------
+_INIT = "    def init_request_context(cls):\n        ctx = {}\n"
+_INIT_RECYCLE = "    def init_request_context(cls, ctx=None):\n        if ctx is None:\n            ctx = {}\n        else:\n            ctx.clear()\n"
+_ENTER_RECYCLE = "        self.ctx, self.token = self.ctx_holder.init_request_context(self.ctx)\n"
+_MAINLOOP = "        self.logger.debug(\"Entering main loop for client id [%s].\", self.client_id)\n"
+_HOISTED = "        request_context_manager = self.es[\"default\"].new_request_context()\n" + _MAINLOOP
+_WITH_HOISTED = "                with request_context_manager as request_context:\n"
+_EXIT_TAIL = "        self.token = None\n        return False"
+VARIANTS += [
+    [V("seed C18-m14: one context manager per client, re-entered for every request, whose dict is cleared and installed again", "break", _D, _MAINLOOP, _HOISTED, "O18.3"),
+     V("", "break", _D, _WITH, _WITH_HOISTED), V("", "break", _C, _ENTER, _ENTER_RECYCLE), V("", "break", _C, _INIT, _INIT_RECYCLE)],
+    [V("m14 shape: the re-entered manager hands its previous dict on as it is (`self.ctx or {}`), the init method installs what it is handed", "break", _D, _MAINLOOP, _HOISTED, "O18.3"),
+     V("", "break", _D, _WITH, _WITH_HOISTED), V("", "break", _C, _ENTER, "        self.ctx, self.token = self.ctx_holder.init_request_context(self.ctx or {})\n"),
+     V("", "break", _C, _INIT, "    def init_request_context(cls, ctx):\n")],
+    [V("m14 shape: manager created right before the loop inside the try block, the dict kept (not even cleared) by a conditional expression", "break", _D,
+       "        try:\n" + _LOOP, "        try:\n            per_client_context = self.es[\"default\"].new_request_context()\n" + _LOOP, "O18.3"),
+     V("", "break", _D, _WITH, "                with per_client_context as request_context:\n"), V("", "break", _C, _ENTER, _ENTER_RECYCLE),
+     V("", "break", _C, _INIT, "    def init_request_context(cls, ctx=None):\n        ctx = {} if ctx is None else ctx\n")],
+    [V("m14 shape: the manager that is entered again installs a context only the first time", "break", _D, _MAINLOOP, _HOISTED, "O18.3"), V("", "break", _D, _WITH, _WITH_HOISTED),
+     V("", "break", _C, _ENTER, "        if self.ctx is None:\n    " + _ENTER)],
+    # each half of m14 alone preserves the behaviour, and so does the whole once __exit__ forgets the dict
+    [V("m14, driver half only: the manager is created once per client and entered again - every entry still installs a new dict", "keep", _D, _MAINLOOP, _HOISTED),
+     V("", "keep", _D, _WITH, _WITH_HOISTED)],
+    [V("m14, context half only: a manager that is entered again would recycle its dict - but the executor creates a new manager per request", "keep", _C, _ENTER, _ENTER_RECYCLE),
+     V("", "keep", _C, _INIT, _INIT_RECYCLE)],
+    [V("m14 made harmless: __exit__ forgets the dict, so the re-entered manager starts from a new one", "keep", _D, _MAINLOOP, _HOISTED), V("", "keep", _D, _WITH, _WITH_HOISTED),
+     V("", "keep", _C, _ENTER, _ENTER_RECYCLE), V("", "keep", _C, _INIT, _INIT_RECYCLE), V("", "keep", _C, _EXIT_TAIL, "        self.token = None\n        self.ctx = None\n        return False")],
+    [V("new manager per request bound to a local inside the loop, the init method builds the dict with dict()", "keep", _D, _WITH,
+       "                manager = self.es[\"default\"].new_request_context()\n                with manager as request_context:\n"),
+     V("", "keep", _C, "        ctx = {}\n", "        ctx = dict()\n")],
 ]
